@@ -12,6 +12,17 @@
 // Document side ("C13-document"): for (schema, document) pairs the DOCUMENT is re-spelled without changing
 // its JSON value (whitespace, member order at every level, escape sequences in keys and values, and — as an
 // explicitly separate rewrite — trailing zeros of a fraction) and the validation verdict must not change.
+// Besides one random composition per document there are two systematic sweeps with one rewrite at a time:
+// every document-wide escape form (the two-character escapes \" \\ \/ \b \f \n \r \t for every character that has
+// one; \uXXXX for every character with lower / upper / mixed-case hex digits and surrogate pairs; \uXXXX only
+// where an escape is required), and the member order of single objects (all orders up to 3 members, otherwise
+// reverse + rotation + random ones). Document objects under an `additionalProperties` rule (every mode: false,
+// true / "any", each schema type, "@t" / "@u") carry 0-4 additional members of mixed conformity, so that an
+// order-dependent verdict (state kept between the members of one object) shows.
+//
+// Schema side, first variant of every schema: the COMBINATION line-end style (LF, CRLF, CR, four mixtures; by
+// turns) x dense user comments (`#` at line ends and on own lines, incl. empty and one-character ones, ###
+// blocks) x, at random, everything else; the other variants are free compositions.
 //
 // Reading notes (where the property text leaves a choice, the reading the unchanged tree satisfies):
 //   - "extra spaces around ':' and ','" inside a rule object means the SPACE character: a TAB between a bare
@@ -47,6 +58,7 @@ import (
 	jlib "github.com/jsightapi/jsight-schema-go-library"
 	jdoc "github.com/jsightapi/jsight-schema-go-library/formats/json"
 	"github.com/jsightapi/jsight-schema-go-library/notations/jschema"
+	jenum "github.com/jsightapi/jsight-schema-go-library/rules/enum"
 
 	"verifharness/vh"
 )
@@ -162,6 +174,35 @@ type gen struct {
 	// object). GenSchemaText leaves it off: its consumers (c14-len, loaderdiff) keep their input space.
 	wide     bool
 	docStats []string
+	// named enum rules (`{enum: @e1}`, the one rule value that is a shortcut): only while namedOK (root schema)
+	namedOK    bool
+	named      map[string]string // "@e1" -> text of the enum rule
+	namedOrder []string
+}
+
+// enumRule: the enum rule of a node, either with its items in place or - wide generator, root schema - as a
+// reference to a named enum rule that is added with AddRule.
+func (g *gen) enumRule(items []string) rule {
+	if !g.wide || !g.namedOK || len(g.namedOrder) >= 3 || !g.chance(0.4) {
+		return rule{"enum", arrOf(items)}
+	}
+	name := fmt.Sprintf("@e%d", len(g.namedOrder)+1)
+	var text string
+	switch g.r.Intn(3) {
+	case 0:
+		text = "[" + strings.Join(items, ", ") + "]"
+	case 1:
+		text = "[\n  " + strings.Join(items, ",\n  ") + "\n]"
+	default:
+		text = "[ // the items\n  " + strings.Join(items, ", // an item\n  ") + " /* the last one */\n]"
+	}
+	if g.named == nil {
+		g.named = map[string]string{}
+	}
+	g.named[name] = text
+	g.namedOrder = append(g.namedOrder, name)
+	g.feat("named-enum-rule")
+	return rule{"enum", lit(name)}
 }
 
 func (g *gen) feat(s string) { g.features[s] = true }
@@ -195,7 +236,7 @@ func (g *gen) intNode() *node {
 		}
 		r.Shuffle(len(items), func(i, j int) { items[i], items[j] = items[j], items[i] })
 		n.enum = items
-		n.rules = append(n.rules, rule{"enum", arrOf(items)})
+		n.rules = append(n.rules, g.enumRule(items))
 		g.feat("enum")
 	case k == 1:
 		n.rules = append(n.rules, rule{"const", lit("true")})
@@ -249,7 +290,7 @@ func (g *gen) fltNode() *node {
 		}
 		r.Shuffle(len(items), func(i, j int) { items[i], items[j] = items[j], items[i] })
 		n.enum = items
-		n.rules = append(n.rules, rule{"enum", arrOf(items)})
+		n.rules = append(n.rules, g.enumRule(items))
 		g.feat("enum")
 	case k == 1:
 		n.rules = append(n.rules, rule{"const", lit("true")})
@@ -303,7 +344,7 @@ func (g *gen) strNode() *node {
 		}
 		r.Shuffle(len(items), func(i, j int) { items[i], items[j] = items[j], items[i] })
 		n.enum = items
-		n.rules = append(n.rules, rule{"enum", arrOf(items)})
+		n.rules = append(n.rules, g.enumRule(items))
 		g.feat("enum")
 	case k == 2:
 		n.rules = append(n.rules, rule{"const", lit("true")})
@@ -532,7 +573,7 @@ func (g *gen) scalar() *node {
 			n.rules = append(n.rules, rule{"const", lit("true")})
 			n.enum = []string{b}
 		case 2:
-			n.rules = append(n.rules, rule{"enum", arrOf([]string{"true", "false"})})
+			n.rules = append(n.rules, g.enumRule([]string{"true", "false"}))
 			g.feat("enum")
 			n.enum = []string{"true", "false"}
 		}
@@ -1816,6 +1857,9 @@ func docFeatures(d *dval) (strs, members, astral, needEsc, frac int) {
 type texts struct {
 	root  string
 	types map[string]string // name without '@' -> text
+	// named enum rules of the root schema (added with AddRule), in this order
+	named      map[string]string
+	namedOrder []string
 }
 
 var typeOrder = []string{"t", "u"}
@@ -1834,6 +1878,11 @@ func errCode(err error) string {
 
 func build(t texts) (*jschema.Schema, string) {
 	s := jschema.New("root", t.root)
+	for _, nm := range t.namedOrder {
+		if err := s.AddRule(nm, jenum.New(nm, t.named[nm])); err != nil {
+			return nil, "ADDRULE " + nm + " " + errCode(err)
+		}
+	}
 	// AddType loads the root text first; load it explicitly so that an error of the root is not reported as an
 	// error of the added type.
 	if _, err := s.UsedUserTypes(); err != nil {
@@ -1954,6 +2003,9 @@ func (c *caseResult) kase(key string, nt bool) {
 func showTexts(label string, t texts) string {
 	var sb strings.Builder
 	fmt.Fprintf(&sb, "%s schema = %q", label, t.root)
+	for _, nm := range t.namedOrder {
+		fmt.Fprintf(&sb, "\n%s AddRule %s = enum %q", label, nm, t.named[nm])
+	}
 	for _, nm := range typeOrder {
 		if txt, ok := t.types[nm]; ok {
 			fmt.Fprintf(&sb, "\n%s AddType @%s = %q", label, nm, txt)
@@ -2007,9 +2059,11 @@ func oneCase(seed int64, nVariants, nDocVariants int) (res caseResult) {
 		}
 	}
 	g.refsOK = useTypes
+	g.namedOK = true
 	root := g.genNode(1+r.Intn(3), false, useTypes)
 	if r.Intn(10) < 7 { // most roots are containers: the line / annotation binding only matters below the root
 		for try := 0; try < 8 && (root.compact || (root.kind != "obj" && root.kind != "arr") || len(root.kids) < 2); try++ {
+			g.named, g.namedOrder = nil, nil
 			root = g.genNode(2+r.Intn(2), false, useTypes)
 		}
 	}
@@ -2028,7 +2082,7 @@ func oneCase(seed int64, nVariants, nDocVariants int) (res caseResult) {
 	}
 
 	printAll := func(sp *spell) texts {
-		t := texts{root: sp.print(root), types: map[string]string{}}
+		t := texts{root: sp.print(root), types: map[string]string{}, named: g.named, namedOrder: g.namedOrder}
 		for _, nm := range typeOrder {
 			if n, ok := types[nm]; ok {
 				t.types[nm] = sp.print(n)
@@ -2331,15 +2385,11 @@ var (
 )
 
 func Run(args []string) {
-	rep := vh.NewReport(command, "abstract schemas (objects, arrays incl. nested arrays followed by annotated elements, scalars of 5 kinds, @t / @t | @u shortcuts to 2 generated added types; rules min/max/exclusive*/lengths/regex/enum/const/type/precision/optional/nullable/minItems/maxItems/additionalProperties/or; notes; 1 in 6 schemas carries one planted single-symptom defect) printed in a BASE spelling and in VARIANT spellings = random compositions of: line ends LF/CRLF/CR/mixed, indentation none/spaces/tabs/mixed, user comments (# at line end incl. empty, full-line #, ### blocks between lines), inline vs multi-line annotations (with line breaks inside the rule object), notes dropped/changed/added, quoted vs bare rule names, trailing comma, extra spaces around ':' ',', rule order. Compared per (base, variant): Check verdict+code, AST JSON of root and added types (comment fields blanked iff notes were rewritten, rule order normalised iff rules were shuffled), Validate verdict on 6 documents (2 sampled, 3 mutated, 1 unrelated). Document side: each document of an accepted schema re-spelled (whitespace, member order at all levels, escapes in keys and values incl. surrogate pairs and \\/ , fraction zeros) and validated. nontrivial = variant text differs from base text and (schema side) the schema has >=1 annotation / (document side) the document has a string or an object with >=2 members")
+	rep := vh.NewReport(command, "abstract schemas (objects, arrays incl. nested arrays followed by annotated elements, scalars of 5 kinds, @t / @t | @u shortcuts to 2 generated added types; rules min/max/exclusive*/lengths/regex/enum/const/type/precision/optional/nullable/minItems/maxItems/additionalProperties/or; notes; 1 in 6 schemas carries one planted single-symptom defect) printed in a BASE spelling and in VARIANT spellings = random compositions of: line ends LF/CRLF/CR/mixed, indentation none/spaces/tabs/mixed, user comments (# at line end incl. empty, full-line #, ### blocks between lines), inline vs multi-line annotations (with line breaks inside the rule object), notes dropped/changed/added, quoted vs bare rule names, trailing comma, extra spaces around ':' ',', rule order. Compared per (base, variant): Check verdict+code, AST JSON of root and added types (comment fields blanked iff notes were rewritten, rule order normalised iff rules were shuffled), Validate verdict on 6 documents (2 sampled, 3 mutated, 1 unrelated). The first variant of every schema combines a line-end style (LF / CRLF / CR / 4 mixtures, by turns) with dense user comments. Named enum rules ({enum: @e1}, added with AddRule) are the rule values that are shortcuts. Document side: each document of an accepted schema re-spelled (one random composition of whitespace, member order at all levels, escapes in keys and values incl. surrogate pairs and \\/ , fraction zeros; plus sweeps with one rewrite at a time: 5 document-wide escape forms = all two-character escapes / \\u lower / upper / mixed-case hex / \\u only where required, and for up to 2 objects per document all member orders (<= 3 members) or reverse + rotation + 6 random orders) and validated; objects under additionalProperties (all modes: false, true, any, every schema type, @t, @u) get 0-4 additional members of mixed conformity. nontrivial = variant text differs from base text and (schema side) the schema has >=1 annotation / (document side) the document has a string or an object with >=2 members")
 	r := vh.NewRand(salt)
 	nSchemas := vh.Pick(2200, 60000)
 	nVar, nDocVar := 4, 1
 	debug := len(args) > 0 && args[0] == "debug"
-	if len(args) > 0 && args[0] == "probe" {
-		probe()
-		return
-	}
 
 	seeds := make([]int64, nSchemas)
 	for i := range seeds {
@@ -2462,15 +2512,4 @@ func GenSchemaText(seed int64) SchemaText {
 		out.End = "word"
 	}
 	return out
-}
-
-func probe() {
-	for _, m := range []string{"string", "integer", "float", "decimal", "boolean", "null", "object", "array", "email", "uri", "uuid", "date", "datetime", "enum", "mixed", "any", "@t", "@u"} {
-		t := texts{root: "{ // {additionalProperties: \"" + m + "\"}\n  \"id\": 1\n}", types: map[string]string{"t": "{\"x\": 1}", "u": "5"}}
-		fmt.Println(m, checkMsg(t), validate(t, `{"id":1,"a":"s"}`), validate(t, `{"id":1,"a":1}`), validate(t, `{"id":1,"a":{}}`), validate(t, `{"id":1,"a":[]}`), validate(t, `{"id":1,"a":null}`), validate(t, `{"id":1,"a":1.5}`), validate(t, `{"id":1,"a":true}`))
-	}
-	for _, sc := range []string{`"l\nf"`, `"c\rr"`, `"b\bf\f"`, `"\u00e9t\u00E9"`, `"\ud83d\ude00!"`, `"\uD83D\uDE00"`, `{"l\nf": 1, "\u00e9k": 2, "b\\k": 3, "t\tk": 4}`, `"l\nf" // {regex: "^l\\sf$", minLength: 3, maxLength: 3}`, `"l\nf" // {enum: ["l\nf", "x"]}`, `"\u00e9" // {const: true}`} {
-		t := texts{root: sc}
-		fmt.Println(sc, checkMsg(t), validate(t, sc), validate(t, `"l\u000af"`), validate(t, `{"l\u000Af": 1, "é\u006b": 2, "b\u005ck": 3, "t\u0009k": 4}`), validate(t, `"\u00E9"`))
-	}
 }
